@@ -678,13 +678,39 @@ Proof.
   rewrite IH. apply stop_actor_count.
 Qed.
 
-Lemma post_stop_count j w : pc j (post_stop w) = pc j w.
+Lemma shutdown_events_count j l out : cf j (shutdown_events l out) = (cj j l + cf j out)%nat.
+Proof.
+  unfold shutdown_events. revert out. induction l as [|x l IH]; intros out; simpl; [reflexivity|].
+  rewrite IH. cnt.
+Qed.
+
+Lemma fold_shutdown_count j (pl : list (N * wprops)) out :
+  cf j (fold_left (fun o e => shutdown_events (w_queue (snd e)) o) pl out)
+  = (cj j (pool_jobs pl) + cf j out)%nat.
+Proof.
+  revert out. unfold pool_jobs. induction pl as [|e pl IH]; intros out; simpl; [reflexivity|].
+  rewrite IH, shutdown_events_count. cnt.
+Qed.
+
+Lemma pool_jobs_cleared j (pl : list (N * wprops)) :
+  cj j (pool_jobs (map (fun e => (fst e, set_w_queue [] (snd e))) pl)) = 0%nat.
+Proof. unfold pool_jobs. induction pl as [|e pl IH]; simpl; [reflexivity|]. exact IH. Qed.
+
+Lemma shutdown_worker_queues_count j w : pc j (shutdown_worker_queues w) = pc j w.
+Proof.
+  unfold shutdown_worker_queues, pc. simpl. rewrite fold_shutdown_count, pool_jobs_cleared. li.
+Qed.
+
+Lemma post_stop_count j c w : pc j (post_stop c w) = pc j w.
 Proof.
   unfold post_stop.
-  transitivity (pc j (fold_left (fun w e => stop_actor (w_aid (snd e)) w)
-                                (pool (drain_queue_shutdown (S (length (concat (fq w)))) w))
-                                (drain_queue_shutdown (S (length (concat (fq w)))) w))); [reflexivity|].
-  rewrite fold_stop_count. apply drain_queue_shutdown_count.
+  set (w1 := drain_queue_shutdown (S (length (concat (fq w)))) w).
+  assert (P1 : pc j w1 = pc j w) by apply drain_queue_shutdown_count.
+  set (w2 := if c_shutdown_worker_queues c then shutdown_worker_queues w1 else w1).
+  assert (P2 : pc j w2 = pc j w1).
+  { unfold w2. destruct (c_shutdown_worker_queues c); [apply shutdown_worker_queues_count|reflexivity]. }
+  transitivity (pc j (fold_left (fun w e => stop_actor (w_aid (snd e)) w) (pool w2) w2)); [reflexivity|].
+  rewrite fold_stop_count. li.
 Qed.
 
 Lemma inbox_jobs_cons j m l : cj j (inbox_jobs (m :: l)) = (msg_job j m + cj j (inbox_jobs l))%nat.
@@ -1020,4 +1046,80 @@ Proof.
     inversion H; subst. exists pre, [x]. simpl. repeat split; try assumption; try lia.
     eapply lookup_update_same; eassumption.
   - inversion H; subst. exists pre, []. simpl. repeat split; try assumption; try lia.
+Qed.
+
+(* ------------------------------------------------------------------ stopping *)
+Lemma q_pop_none q q' : q_pop q = (None, q') -> concat q = [].
+Proof.
+  revert q'. induction q as [|l q IH]; intros q' H; simpl in H; [reflexivity|].
+  destruct l as [|x l]; [|discriminate].
+  destruct (q_pop q) as [r q0] eqn:E. inversion H; subst. simpl. eapply IH. reflexivity.
+Qed.
+
+Lemma q_pop_some_length q x q' : q_pop q = (Some x, q') -> length (concat q) = S (length (concat q')).
+Proof.
+  revert q'. induction q as [|l q IH]; intros q' H; simpl in H; [discriminate|].
+  destruct l as [|y l].
+  - destruct (q_pop q) as [r q0] eqn:E. inversion H; subst. simpl. eapply IH. reflexivity.
+  - inversion H; subst. simpl. reflexivity.
+Qed.
+
+Lemma drain_queue_shutdown_empties fuel w :
+  (length (concat (fq w)) < fuel)%nat -> concat (fq (drain_queue_shutdown fuel w)) = [].
+Proof.
+  revert w. induction fuel as [|f IH]; intros w H; [lia|]. simpl.
+  destruct (q_pop (fq w)) as [[y|] q'] eqn:E.
+  - apply IH. unfold discard, emit. simpl. apply q_pop_some_length in E. lia.
+  - eapply q_pop_none. eassumption.
+Qed.
+
+Lemma drain_queue_shutdown_pool fuel w : pool (drain_queue_shutdown fuel w) = pool w.
+Proof.
+  revert w. induction fuel as [|f IH]; intros w; simpl; [reflexivity|].
+  destruct (q_pop (fq w)) as [[y|] q']; [|reflexivity]. rewrite IH. reflexivity.
+Qed.
+
+Lemma stop_actor_frame a w :
+  fq (stop_actor a w) = fq w /\ pool (stop_actor a w) = pool w /\ fstatus (stop_actor a w) = fstatus w.
+Proof.
+  unfold stop_actor. destruct (lookup a (actors w)) as [x|]; [|auto].
+  destruct (a_alive x); auto.
+Qed.
+
+Lemma fold_stop_frame (l : list (N * wprops)) w :
+  let w' := fold_left (fun w e => stop_actor (w_aid (snd e)) w) l w in
+  fq w' = fq w /\ pool w' = pool w.
+Proof.
+  revert w. induction l as [|e l IH]; intros w; simpl; [auto|].
+  destruct (IH (stop_actor (w_aid (snd e)) w)) as [A B].
+  destruct (stop_actor_frame (w_aid (snd e)) w) as (C & D & _).
+  split; congruence.
+Qed.
+
+Lemma pool_jobs_cleared_nil (pl : list (N * wprops)) :
+  pool_jobs (map (fun e => (fst e, set_w_queue [] (snd e))) pl) = [].
+Proof. unfold pool_jobs. induction pl as [|e pl IH]; simpl; [reflexivity|]. exact IH. Qed.
+
+Theorem post_stop_clears : forall c w,
+  c_shutdown_worker_queues c = true ->
+  concat (fq (post_stop c w)) = [] /\ pool_jobs (pool (post_stop c w)) = []
+  /\ fstatus (post_stop c w) = FStopping.
+Proof.
+  intros c w Hc. unfold post_stop. rewrite Hc.
+  set (w1 := drain_queue_shutdown (S (length (concat (fq w)))) w).
+  set (w2 := shutdown_worker_queues w1).
+  destruct (fold_stop_frame (pool w2) w2) as [A B]. cbv zeta in A, B.
+  split; [|split; [|reflexivity]].
+  - change (concat (fq (fold_left (fun w e => stop_actor (w_aid (snd e)) w) (pool w2) w2)) = []).
+    rewrite A. unfold w2, shutdown_worker_queues. simpl. unfold w1.
+    apply drain_queue_shutdown_empties. lia.
+  - change (pool_jobs (pool (fold_left (fun w e => stop_actor (w_aid (snd e)) w) (pool w2) w2)) = []).
+    rewrite B. unfold w2, shutdown_worker_queues. simpl. apply pool_jobs_cleared_nil.
+Qed.
+
+Theorem finalize_empties : forall w,
+  fstatus w = FStopping -> all_workers_gone w = true ->
+  fstatus (finalize w) = FStopped /\ pool (finalize w) = [] /\ inbox_msg (finalize w) = [].
+Proof.
+  intros w S G. unfold finalize. rewrite S, G. simpl. auto.
 Qed.
